@@ -574,6 +574,83 @@ def unestablished_path(graph, goals, preds, start=None, cut_node=None):
     return None
 
 
+def const_path(graph, start, goals, cut_node=None, init=()):
+    """Path (list of edges) from ``start`` to a node of ``goals`` that does
+    not pass through a node for which ``cut_node`` holds and does not leave
+    by an exception - or None.  Path-sensitive for locals that hold a
+    constant (a reason string set by a handler, None set before the try): a
+    test on such a local (``x``, ``not x``, ``x is None``, ``x is not None``,
+    ``x == c``, ``x != c``) is followed only in the direction its value
+    allows."""
+    goals = set(goals)
+    unknown = object()
+
+    def value(expr, env):
+        if isinstance(expr, ast.Constant):
+            return expr.value
+        if isinstance(expr, ast.Name) and expr.id in env:
+            return env[expr.id]
+        return unknown
+
+    def outcome(expr, env):
+        if isinstance(expr, ast.UnaryOp) and isinstance(expr.op, ast.Not):
+            inner = outcome(expr.operand, env)
+            return unknown if inner is unknown else not inner
+        if isinstance(expr, ast.Compare) and len(expr.ops) == 1:
+            left = value(expr.left, env)
+            right = value(expr.comparators[0], env)
+            if left is unknown or right is unknown:
+                return unknown
+            op = expr.ops[0]
+            if isinstance(op, ast.Is):
+                return left is right
+            if isinstance(op, ast.IsNot):
+                return left is not right
+            if isinstance(op, ast.Eq):
+                return left == right
+            if isinstance(op, ast.NotEq):
+                return left != right
+            return unknown
+        val = value(expr, env)
+        return unknown if val is unknown else bool(val)
+
+    def step(edge, envt):
+        if edge.kind == 'exc':
+            return []
+        node = edge.src
+        if node in goals:
+            return []
+        if cut_node is not None and node is not start and cut_node(node):
+            return []
+        env = dict(envt)
+        if node.kind == 'test' and edge.kind in ('true', 'false') and \
+                node.ast is not None:
+            res = outcome(node.ast, env)
+            if res is not unknown and res != (edge.kind == 'true'):
+                return []
+        if node.kind == 'stmt' and isinstance(node.ast, ast.Assign) and \
+                len(node.ast.targets) == 1 and \
+                isinstance(node.ast.targets[0], ast.Name):
+            tgt = node.ast.targets[0].id
+            val = value(node.ast.value, env)
+            if val is unknown or not isinstance(
+                    val, (str, bool, int, type(None))):
+                env.pop(tgt, None)
+            else:
+                env[tgt] = val
+        elif node.kind in ('stmt', 'for', 'with_enter', 'handler'):
+            for name in N.assigned_targets(node) | N.for_targets(node):
+                env.pop(name, None)
+        return [tuple(sorted(env.items(), key=lambda kv: kv[0]))]
+
+    reached = C.explore(graph, [tuple(sorted(init))], step, start=start)
+    for (node, state) in reached:
+        if node in goals and not (node is start and
+                                  reached[(node, state)][1] is None):
+            return C.witness(reached, (node, state))
+    return None
+
+
 def kept_between_calls(mod, func):
     """Statements of ``func`` that store into a module-level container or
     name (X[k] = v, del X[k], X.update / setdefault / add / append / pop ...,
@@ -1708,6 +1785,17 @@ def expr_of_function(fdef):
                 [N.txt(e) for e in ret.elts] and all(
                     isinstance(e, ast.Name) for e in ret.elts):
             return last.value
+        # a, b = E ; return a  ->  E[0]
+        if len(body) == 2 and isinstance(last.targets[0], ast.Tuple) and \
+                isinstance(ret, ast.Name) and all(
+                    isinstance(e, ast.Name) for e in last.targets[0].elts):
+            names = [e.id for e in last.targets[0].elts]
+            if names.count(ret.id) == 1 and not isinstance(
+                    last.value, (ast.Tuple, ast.List)):
+                return ast.Subscript(
+                    value=last.value,
+                    slice=ast.Constant(value=names.index(ret.id)),
+                    ctx=ast.Load())
         if all(isinstance(st.targets[0], ast.Name) for st in body[:-1]):
             import copy
             env = {}
